@@ -1,8 +1,15 @@
 /-
 Props/C02 — Word-level bit kernels are exact on every word.
-Property theorems only; helper lemmas live in Proof/Kernels.lean.
+Property theorems only; helper lemmas live in Proof/Kernels.lean, Proof/KernelsList.lean (list
+lemmas), Proof/KernelsBP.lean, Proof/KernelsBlock.lean, Proof/KernelsSelect.lean, Proof/KernelsPdep.lean.
+Every theorem is for all 2^64 words and every `k`/`p : Nat` (a Rust `u32` is the special case
+`< 2^32`; no theorem needs that bound).
 -/
 import SuccinctlyVerif.Proof.Kernels
+import SuccinctlyVerif.Proof.KernelsBP
+import SuccinctlyVerif.Proof.KernelsBlock
+import SuccinctlyVerif.Proof.KernelsSelect
+import SuccinctlyVerif.Proof.KernelsPdep
 namespace SV.Props.C02
 open SV
 
@@ -13,11 +20,132 @@ theorem popcount_portable_eq (x : BitVec 64) : popcountPortable x = popcount x :
 /-- `u64::count_ones` as modelled (`cpop`) is the bit-at-a-time count. -/
 theorem popc_eq (x : BitVec 64) : popc x = popcount x := Kernels.popc_eq_popcount x
 
+example : popcountPortable 0x8000_0000_00F0_F0F0#64 = 13 ∧ popc 0x8000_0000_00F0_F0F0#64 = 13
+    ∧ popcountPortable (BitVec.allOnes 64) = 64 := by decide +kernel
+
 /-- `select_in_byte` over the generated 2048-entry table = position of the k-th set bit of the
 byte (8 if none), for every byte and every `k` (including `k ≥ 8`). -/
 theorem select_in_byte_eq (b : BitVec 8) (k : Nat) : selectInByteTable b k = selectInByteSpec b k :=
   Kernels.selectInByteTable_eq b k
 
 example : selectInByteTable 0b10101010#8 2 = 5 := by decide +kernel
+
+/-- `u64::trailing_zeros` as modelled (`BitVec.ctz`) is the position of the first set bit of the
+bit list, 64 for the zero word. -/
+theorem tz_eq (x : BitVec 64) : tz x = (selectB true (wordBits x) 0).getD 64 := Kernels.tz_eq x
+
+example : tz 0x0000_0F00_0000_0000#64 = 40 ∧ tz 0#64 = 64 := by decide +kernel
+
+/-- `select_in_word_ctz` (the `x &= x-1` loop) returns the position of the `k`-th set bit, 64 if
+there are at most `k` set bits — for every word and every `k`. -/
+theorem select_ctz_eq (x : BitVec 64) (k : Nat) : selectCtz x k = selectInWordSpec x k :=
+  Kernels.selectCtz_eq x k
+
+example : selectCtz 0x8000_0000_00F0_F0F0#64 12 = 63 ∧ selectCtz 0x8000_0000_00F0_F0F0#64 13 = 64 := by
+  decide +kernel
+
+/-- `find_unmatched_close_in_word` = index of the first close with no open to its left in the
+64-bit list (linear excess scan), 64 if there is none. -/
+theorem find_unmatched_close_eq (x : BitVec 64) :
+    findUnmatchedCloseInWord x = (BP.findUnmatchedClose (wordBits x)).getD 64 :=
+  Kernels.findUnmatchedCloseInWord_eq x
+
+-- "(()))(…": the first unmatched close is at bit 4
+example : findUnmatchedCloseInWord 0xFFFF_FFFF_FFFF_FFE3#64 = 4 := by decide +kernel
+
+/-- `find_close_in_word(word, p)` for every word and every `p`: `None` when `p ≥ 64`; `Some(p)` when
+bit `p` is a close (the documented degenerate case); otherwise the matching close of the open at
+`p` by the linear excess scan over the word's 64 bits, which is `None` exactly when the match lies
+beyond bit 63. -/
+theorem find_close_in_word_eq (x : BitVec 64) (p : Nat) :
+    findCloseInWord x p =
+      if p ≥ 64 then none
+      else if x.getLsbD p = false then some p
+      else BP.findClose (wordBits x) p :=
+  Kernels.findCloseInWord_eq x p
+
+-- "(()())" at bits 2..7: open at 2 matches close at 7; open at 8 has its match beyond bit 63
+example : findCloseInWord 0xFFFF_FFFF_FFFF_FF2F#64 2 = some 7
+    ∧ findCloseInWord 0xFFFF_FFFF_FFFF_FF2F#64 8 = none
+    ∧ findCloseInWord 0xFFFF_FFFF_FFFF_FF2F#64 4 = some 4 := by decide +kernel
+
+/-- `block_popcount_portable` (sum of `count_ones`) = sum of the bit-at-a-time counts, for every
+block (of any length, 8 words in particular). -/
+theorem block_popcount_portable_eq (block : List (BitVec 64)) :
+    blockPopcountPortable block = (block.map popcount).sum :=
+  Kernels.blockPopcountPortable_eq block
+
+/-- Lane model of `block_popcount_avx2` (nibble `vpshufb` lookups, two wrapping `add_epi8`
+accumulations, `vpsadbw`, four-lane sum) = sum of the bit-at-a-time counts, for every 8-word block;
+in particular the `u8` lanes never wrap. -/
+theorem block_popcount_avx2_eq (block : List (BitVec 64)) (h : block.length = 8) :
+    blockPopcountAvx2 block = (block.map popcount).sum :=
+  Kernels.blockPopcountAvx2_eq block h
+
+example : ∃ block : List (BitVec 64), block.length = 8 ∧ blockPopcountAvx2 block = 64 * 8 - 3
+    ∧ blockPopcountPortable block = 64 * 8 - 3 :=
+  ⟨[BitVec.allOnes 64, BitVec.allOnes 64, 0x7FFF_FFFF_FFFF_FFFE#64, BitVec.allOnes 64,
+    BitVec.allOnes 64, BitVec.allOnes 64, 0xFFFF_FFEF_FFFF_FFFF#64, BitVec.allOnes 64], by decide +kernel⟩
+
+/-- `select_in_word_broadword` (SWAR byte counts translated from the source, byte-finding loop,
+`select_in_byte` over the dumped table) returns the position of the `k`-th set bit, 64 if there
+are at most `k` set bits — for every word and every `k`. -/
+theorem select_broadword_eq (x : BitVec 64) (k : Nat) : selectBroadword x k = selectInWordSpec x k :=
+  Kernels.selectBroadword_eq x k
+
+/-- No arithmetic of `select_in_word_broadword` leaves its range when `k < count_ones(x)`: the
+byte loop always breaks with `byte_idx < 8` (so `x >> byte_offset` shifts by < 64) and
+`cumulative ≤ k` with `k - cumulative < 8` (so the `u32` subtraction cannot underflow and the table
+index is in bounds).  The model's natural-number subtraction therefore never hides a wrap. -/
+theorem broadword_in_range (x : BitVec 64) (k : Nat) (hk : k < popc x) :
+    (bwFindByte (Gen.broadword_byte_counts x) k 8 0 0).1 < 8
+      ∧ (bwFindByte (Gen.broadword_byte_counts x) k 8 0 0).2 ≤ k
+      ∧ k - (bwFindByte (Gen.broadword_byte_counts x) k 8 0 0).2 < 8 :=
+  Kernels.broadword_in_range x k hk
+
+example : (12 : Nat) < popc 0x8000_0000_00F0_F0F0#64
+    ∧ bwFindByte (Gen.broadword_byte_counts 0x8000_0000_00F0_F0F0#64) 12 8 0 0 = (7, 12) := by
+  decide +kernel
+
+example : selectBroadword 0x8000_0000_00F0_F0F0#64 12 = 63
+    ∧ selectBroadword 0x8000_0000_00F0_F0F0#64 7 = 15
+    ∧ selectBroadword 0x8000_0000_00F0_F0F0#64 13 = 64 := by
+  decide +kernel
+
+/-- `ilog2` as modelled (`63 - clz`) is the position of the highest set bit: if bit `q` is set and
+no higher bit is, `ilog2 y = q`. -/
+theorem ilog2_eq (y : BitVec 64) (q : Nat) (hq : y.getLsbD q = true)
+    (hhi : ∀ p, q < p → y.getLsbD p = false) : ilog2 y = q :=
+  Kernels.ilog2_unique y q hq hhi
+
+example : ilog2 0x0000_0F00_0000_0001#64 = 43 := by decide +kernel
+
+/-- The PDEP model deposits bit-exactly: result bit `p` is set iff mask bit `p` is set and the
+source bit numbered by the count of mask bits below `p` is set (Intel SDM semantics). -/
+theorem pdep_bit (src mask : BitVec 64) (p : Nat) :
+    (pdep src mask).getLsbD p
+      = (mask.getLsbD p && src.getLsbD (((wordBits mask).take p).count true)) :=
+  Kernels.pdep_getLsbD src mask p
+
+example : pdep 0b101#64 0xF0F0#64 = 0x50#64 := by decide +kernel
+
+/-- `select_in_word_pdep` (`(1 << (k+1)) - 1` deposited onto the word, then `ilog2`) returns the
+position of the `k`-th set bit, 64 if there are at most `k` set bits — for every word and every
+`k` (the `k ≥ 63` mask branch included). -/
+theorem select_pdep_eq (x : BitVec 64) (k : Nat) : selectPdep x k = selectInWordSpec x k :=
+  Kernels.selectPdep_eq x k
+
+example : selectPdep 0x8000_0000_00F0_F0F0#64 12 = 63
+    ∧ selectPdep 0x8000_0000_00F0_F0F0#64 7 = 15
+    ∧ selectPdep (BitVec.allOnes 64) 63 = 63
+    ∧ selectPdep 0x8000_0000_00F0_F0F0#64 13 = 64 := by
+  decide +kernel
+
+/-- Dispatch independence: the three `select_in_word` paths (CTZ loop, broadword, PDEP) return the
+same answer on every word and every `k`, so the runtime choice between them (CPU detection,
+`k`-threshold) cannot change a result. -/
+theorem select_paths_agree (x : BitVec 64) (k : Nat) :
+    selectCtz x k = selectBroadword x k ∧ selectBroadword x k = selectPdep x k := by
+  rw [select_ctz_eq, select_broadword_eq, select_pdep_eq]; exact ⟨rfl, rfl⟩
 
 end SV.Props.C02
